@@ -327,6 +327,9 @@ func decodeKey(seq ansi.Sequence) Key
          && result.Modifiers == ((unbox(seq, "ansi.CSI").Final == 90) ? 1 : 0))
   loop 1 invariant outer: CSIWF(seq) && len(seq.Parameters) >= 1 && -1 <= rangeindex && rangeindex < len(seq.Parameters)
                        && KeyState(key, seq, rangeindex)
+  loop 1 invariant C09_notext: rangeindex < 2 ==> key.Text == ""
+  loop 2 invariant C09_notext: key.Text == ""
+  loop 3 invariant C09_notext: key.Text == ""
   loop 2 invariant first: CSIWF(seq) && len(seq.Parameters) >= 1 && i == 0 && pm == seq.Parameters[0] && -1 <= rangeindex && rangeindex < len(pm)
        && key.EventType == 0
        && (rangeindex < 0 ==> (key.Keycode == 0 && key.Modifiers == 0))
@@ -339,6 +342,9 @@ func decodeKey(seq ansi.Sequence) Key
   loop 4 invariant text: CSIWF(seq) && len(seq.Parameters) >= 3 && i == 2
        && key.Keycode == KC(seq) && key.ShiftedCode == SC(seq) && key.BaseLayoutCode == BC(seq)
        && key.Modifiers == MODS(seq) && key.EventType == ET(seq) && !(KC(seq) == 27 && seq.Final == 126)
+  -- text is made up (the upper-case of the key) only for a report whose sole modifier, locks aside, is Shift: a chord
+  -- with Ctrl, Alt, ... and no text parameter decodes with empty text
+  ensures C09_notext: (typeis(seq, "ansi.CSI") && len(unbox(seq, "ansi.CSI").Parameters) < 3 && result.Modifiers % 64 != 1) ==> result.Text == ""
   ensures C09_c0:  typeis(seq, "ansi.C0") ==>
         (result.Keycode == C0Key(unbox(seq, "ansi.C0"))
          && result.EventType == 0 && result.ShiftedCode == 0 && result.BaseLayoutCode == 0
